@@ -353,12 +353,16 @@ Section GS.
     cbn [py_gs_fill_out_parse_tree].
     destruct k' as [|k''].
     - (* length == 1 *)
-      replace (Z.of_nat 1 =? 1)%Z with true by reflexivity.
+      assert (Hc1 : (Z.of_nat 1 =? 1)%Z = true) by reflexivity.
+      assert (Hc2 : (1 =? Z.of_nat 1)%Z = true) by reflexivity.
+      rewrite ?Hc1, ?Hc2.
       rewrite (gen_find_cp f self p lvl lvl Hok) by lia. cbn [bind Omen.fill].
       destruct (find_cp p lvl lvl) as [L|]; cbn [fcp_py option_map fst snd otree_py tree_py map row_py row_prefix row_level row_index].
       + exists o. split; [reflexivity | exact Hrel].
       + exists o. split; [reflexivity | exact Hrel].
-    - replace (Z.of_nat (S (S k'')) =? 1)%Z with false by (symmetry; apply Z.eqb_neq; lia).
+    - assert (Hc1 : (Z.of_nat (S (S k'')) =? 1)%Z = false) by (apply Z.eqb_neq; lia).
+      assert (Hc2 : (1 =? Z.of_nat (S (S k'')))%Z = false) by (apply Z.eqb_neq; lia).
+      rewrite ?Hc1, ?Hc2. clear Hc1 Hc2.
       rewrite fill_SS. set (K := S (S k'')) in *.
       set (rc := first_st (fill_F (S k'') p lvl) c (levels_down maxl lvl)).
       match goal with |- context[mblock _ ?k] => set (kfun := k) end.
